@@ -6,6 +6,8 @@ HOOKS = {
     "add_only": True,
 }
 ENGINES = [
+    {"name": "tlc-grammar-eq", "path": "spec/Ebnf.tla, spec/EbnfGen.tla, spec/GrammarEq.tla", "serves_properties": ["C01"],
+     "kind_free_text": "abstract syntax + denotation of EBNF right-hand sides in TLA+, spec generator, lock-step fixpoint comparison with productions exported by harness/ebnf.go + harness/specdump.go"},
     {"name": "tlc-lexer", "path": "spec/EbnfLexRef.tla, spec/EbnfLexDet.tla, spec/EbnfScan.tla, spec/LexStream.tla, spec/ScannerProduct.tla",
      "serves_properties": ["C05"], "kind_free_text": "reference token automaton derived in TLA+ from the documented token table; product with the real coded table; trace validation of recorded token streams; harness/lexer.go"},
     {"name": "tlc-scanner-product", "path": "spec/ScannerProduct.tla", "serves_properties": ["C03"],
@@ -20,6 +22,13 @@ NOTES = ("Every check: TLC-generated cases -> Go harness runs the real emerge co
          "counterexamples replayed on the real code before a VIOLATION line is printed. Exit 2 = infrastructure, never a verdict.")
 NOT_APPLICABLE = {}
 CHECKS = {
+    "C01": {
+        "level": "model_checking",
+        "engine": "tlc-grammar-eq",
+        "technique": "TLC iterates, per generated specification, the Kleene fixpoint of the TLA+ EBNF denotation and of the production set exported from the real spec.Parse, and compares the bounded languages of every user rule",
+        "text": "Every printable right-hand-side tree up to size 4 (5 thorough) over two strings and a nullable non-terminal, every ordered pair of extended operators on a shared sub-expression (one rule / two rules / two different sub-expressions), name-collision specs and recursion/empty-rule specs are printed, parsed by the real spec.Parse, and TLC checks DenotK(rule) = LangK(derived productions) for every user rule on all terminal strings up to length 4 (5).",
+        "note": "Bounded tree size and string length K; <= 4 terminals; trusted: harness printer (only parenthesis-free printable trees), TLC. Known finding NAME-CAPTURE is matched by exact input text + exact language difference.",
+    },
     "C03": {
         "level": "model_checking",
         "engine": "tlc-scanner-product",
